@@ -13,6 +13,7 @@ import (
 	"strings"
 	"time"
 
+	xcrypto "mellium.im/xmpp/crypto"
 	"mellium.im/xmpp/disco"
 	"mellium.im/xmpp/disco/info"
 	"mellium.im/xmpp/form"
@@ -129,6 +130,13 @@ type hf struct {
 }
 
 var hashes = []hf{{"sha-1", sha1.New}, {"sha-256", sha256.New}, {"sha-512", sha512.New}, {"sha-224", sha256.New224}}
+
+// libHashes: the hash functions as the library hands them out (crypto.Hash.New)
+// next to the standard library's constructor of the algorithm they name.
+var libHashes = []struct {
+	h   xcrypto.Hash
+	ref func() hash.Hash
+}{{xcrypto.SHA1, sha1.New}, {xcrypto.SHA224, sha256.New224}, {xcrypto.SHA256, sha256.New}, {xcrypto.SHA384, sha512.New384}, {xcrypto.SHA512, sha512.New}}
 
 var identPool = []ident{
 	{"client", "pc", "", "Exodus 0.9.1"},
@@ -389,8 +397,46 @@ func decodedBody(c *nd.Ctx) nd.Result {
 }
 
 // anchors: the two worked examples of XEP-0115 (§5.2, §5.3) pin the reference itself.
+// the second worked example of XEP-0115 (5.3) as a peer sends it; %H% is the
+// type attribute of the FORM_TYPE field, %T% that of the other fields (field
+// types are optional in forms of type result)
+const xepExample2 = `<query xmlns='http://jabber.org/protocol/disco#info'><identity xml:lang='en' category='client' name='Psi 0.11' type='pc'/><identity xml:lang='el' category='client' name='Ψ 0.11' type='pc'/><feature var='http://jabber.org/protocol/caps'/><feature var='http://jabber.org/protocol/disco#info'/><feature var='http://jabber.org/protocol/disco#items'/><feature var='http://jabber.org/protocol/muc'/><x xmlns='jabber:x:data' type='result'><field var='FORM_TYPE'%H%><value>urn:xmpp:dataforms:softwareinfo</value></field><field var='ip_version'%T%><value>ipv4</value><value>ipv6</value></field><field var='os'><value>Mac</value></field><field var='os_version'><value>10.5.1</value></field><field var='software'><value>Psi</value></field><field var='software_version'><value>0.11</value></field></x></query>`
+
+func decodedAnchor(c *nd.Ctx, shape int) nd.Result {
+	doc := xepExample2
+	switch shape {
+	case 0:
+		doc = strings.Replace(strings.Replace(doc, "%H%", " type='hidden'", 1), "%T%", " type='text-multi'", 1)
+	case 1: // no field types at all
+		doc = strings.Replace(strings.Replace(doc, "%H%", "", 1), "%T%", "", 1)
+	case 2: // FORM_TYPE typed as an ordinary field
+		doc = strings.Replace(strings.Replace(doc, "%H%", " type='text-single'", 1), "%T%", " type='list-multi'", 1)
+	}
+	c.Note("XEP-0115 example 2 decoded from %s", doc)
+	res := nd.Result{Outcome: "anchor-decoded", NonTrivial: fmt.Sprintf("decoded/%d", shape)}
+	const want = "q07IKJEyjvHSyhy//CH0CxmKi8w="
+	var got string
+	var err error
+	if p := nd.Catch(func() {
+		var in disco.Info
+		if err = xml.Unmarshal([]byte(doc), &in); err == nil {
+			got = in.Hash(sha1.New())
+		}
+	}); p != nil {
+		res.Violation = &nd.Violation{Sig: "hash-decoded:" + p.Sig(), Msg: "XEP example decoded: panic " + p.Value}
+		return res
+	}
+	if err != nil || got != want {
+		res.Violation = &nd.Violation{Sig: "hash:differs-from-xep-0115:worked-example-decoded", Msg: fmt.Sprintf("XEP-0115 example 2 decoded from %s: got %s (%v) want %s", doc, got, err, want)}
+	}
+	return res
+}
+
 func anchorsBody(c *nd.Ctx) nd.Result {
-	which := c.Choose(2, "example")
+	which := c.Choose(5, "example")
+	if which >= 2 {
+		return decodedAnchor(c, which-2)
+	}
 	perm := c.Choose(6, "rotation")
 	var ids []ident
 	var feats []string
@@ -439,6 +485,19 @@ func anchorsBody(c *nd.Ctx) nd.Result {
 	}
 	if got != want {
 		res.Violation = &nd.Violation{Sig: "hash:differs-from-xep-0115:worked-example", Msg: fmt.Sprintf("XEP-0115 example %d rotation %d: got %s want %s", which+1, perm, got, want)}
+		return res
+	}
+	// every supported hash function, as the library constructs it
+	for _, lh := range libHashes {
+		var g string
+		if p := nd.Catch(func() { g = buildInfo(ids, feats, forms, true).Hash(lh.h.New()) }); p != nil {
+			res.Violation = &nd.Violation{Sig: "hash:library-hash:" + p.Sig(), Msg: fmt.Sprintf("%v.New(): panic %s", lh.h, p.Value)}
+			return res
+		}
+		if w := refHash(ids, feats, forms, lh.ref()); g != w {
+			res.Violation = &nd.Violation{Sig: "hash:differs-from-xep-0115:library-hash-function", Msg: fmt.Sprintf("XEP-0115 example %d hashed with the library's %v.New(): got %s want %s", which+1, lh.h, g, w)}
+			return res
+		}
 	}
 	return res
 }
